@@ -441,7 +441,24 @@ func (fr *Frame) doCall(ins ssa.Instruction, cc *ssa.CallCommon, st *State, pos 
 		return freshResults()
 	}
 	if key == "" {
-		vc.unsupportedf("dynamic call of a function value at %s", vc.posOf(pos))
+		// a call through a value of a named function type that carries a contract of its own (keyed
+		// by the type, e.g. orcas.OrcaConst): every function of that type in the repository is checked
+		// against the same clauses, so the call site may rely on them
+		if n, ok := cc.Value.Type().(*types.Named); ok && n.Obj().Pkg() != nil {
+			if ts := vc.lookupSpec(shortPkg(n.Obj().Pkg().Path()) + "." + n.Obj().Name()); ts != nil {
+				return fr.applyContract(ts, cc, st, pos)
+			}
+		}
+		// a call through a function value: an arbitrary function — everything reachable may change and
+		// the results are unconstrained beyond their types (listed as a weak callee in the evidence)
+		vc.weak[fmt.Sprintf("function value of type %s", cc.Value.Type())] = true
+		for c := range vc.comps {
+			if c != "$alloc" {
+				vc.havoc(st, c)
+			}
+		}
+		vc.bumpAlloc(st, fr.curReach)
+		return freshResults()
 	} else {
 		vc.unsupportedf("call of %s without contract at %s", key, vc.posOf(pos))
 	}
